@@ -138,7 +138,8 @@ class ADividedByB(SameArrayShapeMixin, Command):
         b = kwargs["B"].result
         self.validate_array_shapes([a, b], lineno=self.lineno)
 
-        return a / b
+        # numpy.ma's division masks the cells whose divisor is zero, also when both inputs are plain (unmasked) arrays
+        return numpy.ma.divide(a, b)
 
 
 class Minimum(SameArrayShapeMixin, Command):
